@@ -120,6 +120,51 @@ class Traced : public PLApproximator<Con> {
   double eval_1st(double x) const override { double v = Base::eval_1st(x); tlog('d', 0, x, v); return v; }
   double inverse_1st(double y) const override { double v = Base::inverse_1st(y); tlog('j', this->GetSubIntvIndex(), y, v); return v; }
   double eval_2nd(double x) const override { double v = Base::eval_2nd(x); tlog('s', 0, x, v); return v; }
+  // Formula-consistency oracle: the record's eval_1st / eval_2nd / inverse / inverse_1st against numerical
+  // differentiation / re-evaluation of its OWN eval (and eval against the long double reference), on a grid of
+  // every subinterval.  Uses only the protected initialisation steps of the real class.
+  void Consistency(int fn, double prm, long &nchk, long &nbad) {
+    this->ClipFuncGraphDomain();
+    if (!this->InitPeriodic()) this->InitNonPeriodic();
+    this->InitSubintervalLoop();
+    auto bad = [&](const char *kind, double x, double got, double want) {
+      ++nbad;
+      if (nbad <= 6) { std::printf("F %s", fn_name[fn]); ph(prm); std::printf(" %s %d %.17g %.17g %.17g\n", kind, this->GetSubIntvIndex(), x, got, want); }
+    };
+    do {
+      double a = this->lb_sub(), b = this->ub_sub();
+      if (!(b > a) || !std::isfinite(a) || !std::isfinite(b)) continue;
+      std::vector<double> grid;
+      for (int j = 0; j < 24; ++j) grid.push_back(a + (b - a) * (0.02 + 0.96 * (j + 0.5) / 24));
+      if (a > 0 && b / a > 100) for (int j = 1; j < 16; ++j) grid.push_back(a * std::pow(b / a, j / 16.0));
+      for (double x : grid) {
+        double h = std::min(1e-5 * std::max(1.0, std::fabs(x)), 0.005 * (b - a));
+        if (a > 0) h = std::min(h, 1e-3 * x);
+        double v = Base::eval(x), d1 = Base::eval_1st(x), d2 = Base::eval_2nd(x);
+        long double want = ref(fn, prm, x);
+        ++nchk;
+        if (!(std::fabs(v - (double)want) <= 1e-9 * std::max(1e-300L, fabsl(want)) + 1e-300)) bad("eval", x, v, (double)want);
+        double vp = Base::eval(x + h), vm = Base::eval(x - h);
+        double nd1 = (vp - vm) / (2 * h);
+        ++nchk;
+        if (!(std::fabs(d1 - nd1) <= 1e-4 * std::fabs(nd1) + 1e-9 * (std::fabs(v) + 1e-30) / h)) bad("eval_1st", x, d1, nd1);
+        double nd2 = (Base::eval_1st(x + h) - Base::eval_1st(x - h)) / (2 * h);
+        ++nchk;
+        if (!(std::fabs(d2 - nd2) <= 1e-4 * std::fabs(nd2) + 1e-9 * (std::fabs(d1) + 1e-30) / h)) bad("eval_2nd", x, d2, nd2);
+        double sx = std::max(1.0, std::fabs(x));
+        if (std::fabs(d1) * sx >= 1e-6 * std::max(1.0, std::fabs(v))) {   // inversion well conditioned
+          double xi = Base::inverse(v);
+          ++nchk;
+          if (!(xi >= a - 1e-6 && xi <= b + 1e-6 && std::fabs(xi - x) <= 1e-6 * sx)) bad("inverse", x, xi, x);
+        }
+        if (std::fabs(d2) * sx >= 1e-6 * std::fabs(d1) && std::fabs(d2) > 1e-300) {
+          double xs = Base::inverse_1st(d1);
+          ++nchk;
+          if (!(xs >= a - 1e-6 && xs <= b + 1e-6 && std::fabs(xs - x) <= 1e-6 * sx)) bad("inverse_1st", x, xs, x);
+        }
+      }
+    } while (this->NextSubinterval());
+  }
   void PrintRecord(int id) const {
     auto d = this->GetFuncGraphDomain();
     auto a = this->GetLargestAcceptedArgumentRange();
@@ -247,6 +292,59 @@ class Synth : public BasicPLApproximator<ExpConstraint> {
   }
 };
 }  // namespace mp
+#endif
+
+#ifdef PL_TRACE
+// ------------------------------------------------------------------ formula-consistency oracle, all 17 types
+template <class Con>
+static void consist_con(int fn, double prm, double lo, double hi, const Con &con, long &nchk, long &nbad) {
+  PLApproxParams p;
+  p.grDom = {lo, hi, -1e100, 1e100};
+  p.ubErr = 1e-2; p.periodLength = 0;
+  Traced<Con> t(con, p);
+  t.Consistency(fn, prm, nchk, nbad);
+}
+static void consistency_all() {
+  struct FP { int fn; double prm, lo, hi; };
+  std::vector<FP> L;
+  auto add = [&](int fn, double prm, double lo, double hi) { L.push_back({fn, prm, lo, hi}); };
+  add(EXP, 0, -20, 20); add(LOG, 0, 1e-3, 1e4);
+  for (double b : {2.0, 10.0, 0.5, 1.5, 2.718281828459045}) { add(EXPA, b, -8, 8); add(LOGA, b, 1e-3, 1e4); }
+  for (double a : {3.0, 4.0, 5.0, 6.0, 8.0}) add(POW, a, -4, 4);
+  for (double a : {0.5, 1.5, 2.5, 1.0 / 3}) add(POW, a, 0.0, 50);
+  for (double a : {-1.0, -2.0, -0.5, -1.5}) add(POW, a, 0.01, 50);
+  add(SIN, 0, -1, 1); add(COS, 0, -1, 1); add(TAN, 0, -1, 1);
+  add(ASIN, 0, -1, 1); add(ACOS, 0, -1, 1); add(ATAN, 0, -50, 50);
+  add(SINH, 0, -8, 8); add(COSH, 0, -8, 8); add(TANH, 0, -6, 6);
+  add(ASINH, 0, -1e3, 1e3); add(ACOSH, 0, 1, 1e3); add(ATANH, 0, -0.999, 0.999);
+  for (const auto &e : L) {
+    long nchk = 0, nbad = 0;
+    g_trace.clear(); g_seen.clear();
+    const char *st = "ok";
+    try {
+      switch (e.fn) {
+        case EXP: consist_con(e.fn, e.prm, e.lo, e.hi, ExpConstraint({0}), nchk, nbad); break;
+        case LOG: consist_con(e.fn, e.prm, e.lo, e.hi, LogConstraint({0}), nchk, nbad); break;
+        case EXPA: consist_con(e.fn, e.prm, e.lo, e.hi, ExpAConstraint({0}, DblParamArray1{e.prm}), nchk, nbad); break;
+        case LOGA: consist_con(e.fn, e.prm, e.lo, e.hi, LogAConstraint({0}, DblParamArray1{e.prm}), nchk, nbad); break;
+        case POW: consist_con(e.fn, e.prm, e.lo, e.hi, PowConstraint({0}, DblParamArray1{e.prm}), nchk, nbad); break;
+        case SIN: consist_con(e.fn, e.prm, e.lo, e.hi, SinConstraint({0}), nchk, nbad); break;
+        case COS: consist_con(e.fn, e.prm, e.lo, e.hi, CosConstraint({0}), nchk, nbad); break;
+        case TAN: consist_con(e.fn, e.prm, e.lo, e.hi, TanConstraint({0}), nchk, nbad); break;
+        case ASIN: consist_con(e.fn, e.prm, e.lo, e.hi, AsinConstraint({0}), nchk, nbad); break;
+        case ACOS: consist_con(e.fn, e.prm, e.lo, e.hi, AcosConstraint({0}), nchk, nbad); break;
+        case ATAN: consist_con(e.fn, e.prm, e.lo, e.hi, AtanConstraint({0}), nchk, nbad); break;
+        case SINH: consist_con(e.fn, e.prm, e.lo, e.hi, SinhConstraint({0}), nchk, nbad); break;
+        case COSH: consist_con(e.fn, e.prm, e.lo, e.hi, CoshConstraint({0}), nchk, nbad); break;
+        case TANH: consist_con(e.fn, e.prm, e.lo, e.hi, TanhConstraint({0}), nchk, nbad); break;
+        case ASINH: consist_con(e.fn, e.prm, e.lo, e.hi, AsinhConstraint({0}), nchk, nbad); break;
+        case ACOSH: consist_con(e.fn, e.prm, e.lo, e.hi, AcoshConstraint({0}), nchk, nbad); break;
+        case ATANH: consist_con(e.fn, e.prm, e.lo, e.hi, AtanhConstraint({0}), nchk, nbad); break;
+      }
+    } catch (const std::exception &) { st = "exc"; }
+    std::printf("FS %s", fn_name[e.fn]); ph(e.prm); std::printf(" %s %ld %ld\n", st, nchk, nbad);
+  }
+}
 #endif
 
 // ------------------------------------------------------------------ running one case on the real code
@@ -460,8 +558,21 @@ static void explore(const Case &c, const Out &o, int K) {
         if (!cov) { std::printf("E %d 1e9 period-uncovered %.17Lg 0 0 0 period-uncovered\n", c.id, x); return; }
       }
     }
-    double ks[5] = {p.periodicFactorRange.lb, p.periodicFactorRange.ub, 0.0,
-                    std::floor((p.periodicFactorRange.lb + p.periodicFactorRange.ub) / 2), 1.0};
+    // every representation x = k*P + r: all k of the reported factor range (evenly thinned beyond 41)
+    std::vector<double> ks;
+    {
+      double kl = p.periodicFactorRange.lb, ku = p.periodicFactorRange.ub;
+      double cnt = ku - kl + 1, step = cnt > 41 ? std::floor(cnt / 40) : 1;
+      for (double k = kl; k <= ku; k += step) ks.push_back(k);
+      if (ks.empty() || ks.back() != ku) ks.push_back(ku);
+      if (kl <= 0 && ku >= 0) ks.push_back(0.0);
+      // the periods that contain the ends of the requested interval
+      for (double x : {p.grDomOut.lbx, p.grDomOut.ubx})
+        for (double dk : {-1.0, 0.0, 1.0}) {
+          double k = std::floor((x - p.periodRemainderRange.lb) / p.periodLength) + dk;
+          if (k >= kl && k <= ku) ks.push_back(k);
+        }
+    }
     for (double k : ks) {
       if (k < p.periodicFactorRange.lb || k > p.periodicFactorRange.ub) continue;
       long double sh = (long double)k * P;
@@ -597,6 +708,24 @@ static void corpus(std::vector<Case> &v) {
     if (pw < 0 || std::floor(pw) != pw) c.lbx = 0;
     v.push_back(c);
   }
+  // x^a on intervals straddling / left of / right of 0: even >= 4, odd, fractional, negative exponents
+  for (double tol : {1e-1, 1e-2, 1e-3}) {
+    const double ev[][3] = {{4, -3, 2}, {4, -2, -1}, {6, -2, 1}, {8, -1.5, 0}, {4, 0, 3}, {6, 0.5, 2},
+                            {3, -3, 2}, {5, -2, 1.5}, {7, -1.5, -0.25}, {3, 0, 4},
+                            {0.5, 0, 10}, {1.5, 0, 10}, {2.5, 0.25, 6}, {1.0 / 3, 0, 30},
+                            {-1, 0.01, 10}, {-2, 0.05, 5}, {-0.5, 0.01, 100}, {-1.5, 0.1, 20}};
+    for (const auto &e : ev) {
+      Case c; c.id = id++; c.fn = POW; c.prm = e[0]; c.lbx = e[1]; c.ubx = e[2]; c.lby = -1e6; c.uby = 1e6; c.isint = 0; c.tol = tol;
+      v.push_back(c);
+    }
+    // periodic functions away from the base period, tan across its poles
+    const double iv[][2] = {{2, 4}, {-3, 2}, {2, 10}, {30, 33}, {-41, -37.5}, {100, 103}, {-1, 1}};
+    for (int fn : {SIN, COS, TAN})
+      for (const auto &e : iv) {
+        Case c; c.id = id++; c.fn = fn; c.prm = 0; c.lbx = e[0]; c.ubx = e[1]; c.lby = -1e6; c.uby = 1e6; c.isint = 0; c.tol = tol;
+        v.push_back(c);
+      }
+  }
   // float rounding of the domain ends
   { Case c; c.id = id++; c.fn = LOG; c.prm = 0; c.lbx = 0.1; c.ubx = 12345.678; c.lby = -1e6; c.uby = 1e6; c.isint = 0; c.tol = 1e-2; v.push_back(c); }
   { Case c; c.id = id++; c.fn = ATAN; c.prm = 0; c.lbx = 1000.0; c.ubx = 1000.00002; c.lby = -1e6; c.uby = 1e6; c.isint = 0; c.tol = 1e-2; v.push_back(c); }
@@ -669,6 +798,7 @@ int main(int argc, char **argv) {
       std::printf("A %s", op); ph(a); ph(b); ph(r); std::printf("\n");
     }
     rng_state = save;
+    consistency_all();
   }
 #endif
   int K = tier == "thorough" ? 64 : 16;
